@@ -28,7 +28,7 @@ EXHAUSTIVE = {"flag": True, "scope": "all shapes 0..3 x 0..3 for every directed 
 ANCHOR_FUNCS = ["table:Table.__init__", "table:Table.__rshift__", "table:Table.__lshift__", "table:Table.T", "table:Table.__getitem__", "table:Table.__iter__"]
 REQUIRED_STRATA = {"recompute": 200, "structural": 200, "steps": 2000}
 
-OPS = ["rowslice-2d", "<<table-zero-rows", "<<row-bytearray", ">>nothing", ">>vector", ">>vector-wrong", ">>list", ">>dict", ">>dict-wrong", ">>table", ">>table-wrong", "<<row", "<<row-short", "<<row-long", "<<table", "<<row-widen", ">>dict-own-column",
+OPS = ["gather-big", "sort-repeated-labels", ">>own-column-then-write", "rowslice-2d", "<<table-zero-rows", "<<row-bytearray", ">>nothing", ">>vector", ">>vector-wrong", ">>list", ">>dict", ">>dict-wrong", ">>table", ">>table-wrong", "<<row", "<<row-short", "<<row-long", "<<table", "<<row-widen", ">>dict-own-column",
 	"rowslice", "rowmask", "T.T", "attr", "attr-wrong", "ragged-ctor", "attr-iterable", "setitem-table", "<<table-dupnames", ">>table-dupnames", "vector>>"]
 
 
@@ -177,6 +177,74 @@ def run_structural(chk, spec):
 			chk.fail("<< appends rows to every column", f"structural/{op}/raises/{type(o.exc).__name__}", f"{spec!r} raised {o!r}")
 			return
 		expect_cells(chk, spec, o.value, exp, "<< appends rows to every column", "wrong-cells")
+	elif op == "gather-big":
+		# row selection by an index VECTOR on a long table (library fast paths by size): exactly the rows named, every column alike, still a table
+		nbig = [1001, 1500, 1000][spec["key"][0] % 3]
+		idx = {0: [7], 1: [nbig - 1], 2: [3, 700], 3: [], 4: [5, 5, 5], 5: list(range(0, nbig, 97))}[spec["key"][1]]
+		kinds = ["int", "str", "float"][:max(c, 1)]
+		bcols = [[(i * 7 % 1013) if k == "int" else (f"s{i % 97}" if k == "str" else i / 4.0) for i in range(nbig)] for k in kinds]
+		tb = Table([Vector(list(col), name=f"c{j}") for j, col in enumerate(bcols)])
+		o = call(lambda: tb[Vector(list(idx))]) if idx else call(lambda: tb[Vector([], dtype=int)] if False else tb[0:0])
+		if not o.ok:
+			chk.fail("row selection applies uniformly to all columns", f"structural/{op}/raises/{type(o.exc).__name__}", f"{nbig}-row table, index vector {idx!r}: {o!r}")
+			return
+		exp = [[col[i] for i in idx] for col in bcols]
+		res = o.value
+		if not isinstance(res, Table):
+			chk.fail("row selection returns a table", f"structural/{op}/not-a-table", f"{nbig}-row table, index vector {idx!r} -> {type(res).__name__} {short(res, 120)}")
+			return
+		expect_cells(chk, dict(spec, n=nbig, idx=idx), res, exp, "row selection applies uniformly to all columns", "wrong-cells")
+		if idx and res.column_names() != [f"c{j}" for j in range(len(kinds))]:
+			chk.fail("row selection keeps the columns", f"structural/{op}/names", f"{nbig}-row table, index vector {idx!r}: names {res.column_names()!r}")
+		return
+	elif op == "sort-repeated-labels":
+		# sorting is a row permutation of EVERY column, also when labels repeat or are missing
+		if c < 2 or r == 0:
+			chk.skip("structural-needs-two-columns")
+			return
+		labels = {0: ["a"] * c, 1: [None] * c, 2: (["a", None, "a"] + [None] * c)[:c], 3: ["k"] + ["k"] * (c - 1)}[spec["key"][0]]
+		icols = [[rng.choice([3, 1, 2]) for _ in range(r)]] + [[10 * j + i for i in range(r)] for j in range(1, c)]
+		ts = Table([Vector(list(col), name=nm) if nm is not None else Vector(list(col)) for col, nm in zip(icols, labels)])
+		how = spec["key"][1]
+		o = call(lambda: ts.sort_by(ts.cols()[0]) if how == 0 else (ts.T.T.sort_by(ts.cols()[0]) if how == 1 else (ts << ts[0:0]).sort_by(ts.cols()[0], reverse=True)))
+		if not o.ok:
+			chk.skip("structural-sort-refused")
+			return
+		res = o.value
+		if not isinstance(res, Table) or len(res.cols()) != c:
+			chk.fail("sorting keeps every column", f"structural/{op}/columns-lost", f"{spec!r}: labels {labels!r}: result has {len(res.cols()) if isinstance(res, Table) else type(res).__name__} columns, source {c}")
+			return
+		order = sorted(range(r), key=lambda i: icols[0][i], reverse=(how == 2))
+		exp = [[col[i] for i in order] for col in icols]
+		got = tcells(res)
+		if any(sorted(map(repr, g)) != sorted(map(repr, e)) for g, e in zip(got, exp)) or not M.same_list(got[0], exp[0]):
+			chk.fail("sorting keeps every cell", f"structural/{op}/wrong-cells", f"{spec!r}: labels {labels!r}: {short(got, 160)} vs {short(exp, 160)}")
+		fail_rect(chk, res, "result", spec)
+		return
+	elif op == ">>own-column-then-write":
+		# the appended copy of one of the table's own columns is a column of its own: a cell write reaches exactly one cell
+		if c == 0 or r == 0:
+			chk.skip("structural-no-cells")
+			return
+		form = spec["key"][0]
+		o = call(lambda: (t >> t.cols()[0]) if form == 0 else ((t >> t) if form == 1 else Table([t.cols()[0], t.cols()[0]])))
+		if not o.ok or not isinstance(o.value, Table) or len(o.value.cols()) < 2:
+			chk.skip("structural-twin-unavailable")
+			return
+		res = o.value
+		before_r = tcells(res)
+		j = len(res.cols()) - 1
+		newv = pool.make_like(rng, cols[0][0] if cols[0][0] is not None else 1)
+		w = call(res.__setitem__, (0, j), newv)
+		if not w.ok:
+			chk.skip("structural-twin-write-refused")
+			return
+		after_r = tcells(res)
+		exp = [list(x) for x in before_r]
+		exp[j][0] = newv
+		if any(not M.eq_list(g, e) for g, e in zip(after_r, exp)):
+			chk.fail("a cell write changes that cell only (columns built from one vector are separate columns)", f"structural/{op}/other-cells-changed", f"{spec!r}: {short(before_r, 160)} -> {short(after_r, 160)}, expected {short(exp, 160)}")
+		return
 	elif op == "rowslice-2d":
 		# the two-axis spelling of a row slice: t[rows, :] and t[rows, column slice]
 		if c == 0:
@@ -425,7 +493,13 @@ def run(chk):
 		for c in range(4):
 			for op in OPS:
 				variants = [(None, None, None)]
-				if op == "rowslice-2d":
+				if op == "gather-big":
+					variants = [(a, b) for a in range(3) for b in range(6)] if (r, c) in ((1, 1), (2, 2), (3, 3)) else []
+				elif op == "sort-repeated-labels":
+					variants = [(a, b) for a in range(4) for b in range(3)]
+				elif op == ">>own-column-then-write":
+					variants = [(0, 0), (1, 0), (2, 0)]
+				elif op == "rowslice-2d":
 					variants = [(None, None, None), (1, None, None), (None, None, -1), (None, -1, None), (-1, None, -1), (5, None, -2), (2, 0, -1), (-9, 2, 2), (None, None, -2)]
 				elif op == "<<row-bytearray":
 					variants = [(0, 0), (1, 0), (2, 0)]
